@@ -519,8 +519,22 @@ func execChild(args []string) {
 	}
 	debug.SetMaxStack(32 << 20) // unbounded recursion ends this child quickly
 	warmUp()
-	if args[0] == "all" {
-		ev, raws := runCase(&c, *c.O)
+	if args[0] == "all" || strings.HasPrefix(args[0], "skip:") {
+		// skip:<names>: encoders that killed the process under an earlier option mask of the same case are not called
+		skip := map[string]string{}
+		if strings.HasPrefix(args[0], "skip:") {
+			for _, kv := range strings.Split(args[0][5:], ";") {
+				if p := strings.SplitN(kv, "=", 2); len(p) == 2 {
+					skip[p[0]] = p[1]
+				}
+			}
+		}
+		ev, raws := runCaseWith(&c, *c.O, func(e encoder, x, px any, o *ojg.Options) (string, tree, string, string) {
+			if why, dead := skip[e.name]; dead {
+				return "", leaf("none", ""), "fail", why
+			}
+			return callEncoder(e, x, px, o)
+		})
 		os.Stdout.Write(mustJSON(childOut{Ev: &ev, Raws: raws}))
 		return
 	}
@@ -572,11 +586,20 @@ func fatalLine(s string) string {
 
 // runIsolated runs one (case, options) in a child process; if that dies or hangs every encoder is run in a child of its own
 // so that the death is attributed to the encoders that cause it (r = fail, m = fatal: ...).
-func runIsolated(c *caseSpec, o optSpec) (event, map[string]string) {
+func runIsolated(c *caseSpec, o optSpec, dead map[string]string) (event, map[string]string) {
 	cc := *c
 	cc.O = &o
 	line := mustJSON(cc)
-	if out, died := spawn("all", line); died == "" {
+	arg := "all"
+	if len(dead) > 0 {
+		var kv []string
+		for n, why := range dead {
+			kv = append(kv, n+"="+strings.NewReplacer(";", ",", "=", ":").Replace(why))
+		}
+		sort.Strings(kv)
+		arg = "skip:" + strings.Join(kv, ";")
+	}
+	if out, died := spawn(arg, line); died == "" {
 		var co childOut
 		if err := json.Unmarshal(out, &co); err == nil && co.Ev != nil {
 			co.Ev.Case = cc
@@ -590,6 +613,7 @@ func runIsolated(c *caseSpec, o optSpec) (event, map[string]string) {
 	return runCaseWith(c, o, func(e encoder, x, px any, opt *ojg.Options) (string, tree, string, string) {
 		out, died := spawn(strconv.Itoa(idx[e.name]), line)
 		if died != "" {
+			dead[e.name] = died // remembered for the remaining option masks of this case
 			return "", leaf("none", ""), "fail", died
 		}
 		var co childOut
